@@ -257,6 +257,7 @@ func (b *Builder) startContainer() (*container, error) {
 			Pdeathsig: syscall.SIGKILL,
 		},
 	}
+	verifCmd(&r)
 	if err = r.Start(); err != nil {
 		ins.Close()
 		return nil, fmt.Errorf("container: failed to start container: %w", err)
@@ -284,10 +285,13 @@ func (c *container) sendLoop() {
 			if !ok {
 				return
 			}
+			verifBegin()
 			if err := c.socket.SendMsg(cmd.Cmd, cmd.Msg); err != nil {
+				verifEndCmd("host", &cmd.Cmd, err)
 				c.socketError(err)
 				return
 			}
+			verifEndCmd("host", &cmd.Cmd, nil)
 		}
 	}
 }
@@ -296,6 +300,7 @@ func (c *container) recvLoop() {
 	for {
 		var reply reply
 		msg, err := c.socket.RecvMsg(&reply)
+		verifRecvReply("host", &reply, msg, err)
 		if err != nil {
 			c.socketError(err)
 			return
@@ -318,6 +323,7 @@ func (c *container) socketError(err error) {
 // if stderr enabled, collect the output as error
 func (c *container) Destroy() error {
 	// close socket (abort any ongoing command)
+	verifEvent("host", "destroy")
 	c.socket.Close()
 
 	// wait commands terminates
@@ -395,6 +401,7 @@ func (c *container) recvAckReply(name string) error {
 	return nil
 }
 func (c *container) recvReply() (reply, unixsocket.Msg, error) {
+	verifPoint("host.recvReply")
 	select {
 	case <-c.done:
 		return reply{}, unixsocket.Msg{}, c.err
@@ -405,6 +412,7 @@ func (c *container) recvReply() (reply, unixsocket.Msg, error) {
 }
 
 func (c *container) sendCmd(cmd cmd, msg unixsocket.Msg) error {
+	verifPoint("host.sendCmd")
 	select {
 	case <-c.done:
 		return c.err
